@@ -482,6 +482,9 @@ func (w *World) registerSync() {
 	})
 	w.reg("(*sync.WaitGroup).Wait", func(e *Exec, fn *ssa.Function, a []Value) Value {
 		ls := e.lockOf(a[0].(Ptr))
+		if e.threads == nil && ls.readers > 0 {
+			e.runPendingGo()
+		}
 		e.waitUntil(func() bool { return ls.readers <= 0 }, "WaitGroup.Wait")
 		return nil
 	})
